@@ -206,7 +206,7 @@ def gen_c04(env, tier):
         if not case.dims and case.func == "count" and (case.weights is None or case.weights["kind"] == "scalar"):
             case.N = 3
         commons = None
-        for fmt in (("nan",), ("tuple", rnd.choice([0, -1, 7.5])), ("plain", 0)):
+        for fmt in (("nan",), ("tuple", rnd.choice([0, -1, 7.5, 1, 2])), ("plain", 0)):
             if fmt[0] == "plain" and case.func == "valid_count" and not case.ignore:
                 continue
             c2 = cb.Case(case.dims, case.ishape, case.fact, case.weights, case.ignore, fmt, case.func, case.p, case.N)
@@ -385,6 +385,37 @@ def gen_c18(env, tier):
             env.run_xcube("C18", case)
 
 
+def gen_c18_shared(env, tier):
+    """two statistics on the same argument objects, the second one after the first: a weighted stddev (weights with
+    missing values, facts with values hidden under a False validity) followed by min / max / quantile / stddev of the
+    very same fact array"""
+    rnd = env.rnd
+    for _ in range(150 if tier == "quick" else 3000):
+        first = stat_case(env, "stddev")
+        if first.fact["dtype"] != "float":
+            continue
+        first.fact.pop("offset", None)
+        first.weights = env.gen.weights(first.n, small=True)
+        if first.weights is not None and first.weights["kind"] == "scalar":
+            first.weights = None
+        if first.weights is not None:
+            first.weights["valid"] = [rnd.random() > 0.4 for _ in range(first.n)]
+        env.run_xcube("C18", first, dtype=np.int64)
+        func = rnd.choice(["max", "min", "quantile", "stddev"])
+        fact = dict(first.fact)
+        if func in ("max", "min"):
+            if fact["K"] != 1:
+                continue
+            fact["oned"] = first.fact["oned"]
+        second = cb.Case(first.dims, first.ishape, fact, None, rnd.random() < 0.5, first.fmt, func,
+                         rnd.choice(cb.PROBS) if func == "quantile" else None)
+        if func in ("max", "min") and not fact["oned"]:
+            continue
+        second.share_args_with(first)
+        second._wa, second._wa_built = None, True
+        env.run_xcube("C18", second, dtype=np.int64, note="second statistic on the same fact object")
+
+
 def run_wquantile(env, case):
     """weighted quantile: the evaluation is repeated with all weights multiplied by 3, by 2^-30 and by 2^30 (exact
     in binary floating point); every cell must come out the same (rescaling invariance)"""
@@ -428,6 +459,17 @@ def gen_c14(env, tier):
                     if (v,) not in i:
                         dict.__setitem__(i, (v,), np.array([], dtype=np.uint32))
         cube = env.ccube(idims)
+        if n and rnd.random() < 0.12:
+            # the cube holds its dimension objects, not a picture of them: one is re-expressed and a cell of it reassigned
+            # in place after the cube was built; the walk is over the dimensions as they are when it happens
+            k = rnd.randrange(nd)
+            row, val = rnd.randrange(n), rnd.randrange(extents[k] + 1)
+            idims[k].shift_common(rnd.choice([val, idims[k].common, rnd.randrange(extents[k] + 2)]))
+            idims[k].update({(val,): np.array([row], dtype=np.uint32)})
+            dims = list(dims)
+            dims[k] = dims[k].copy()
+            dims[k][row] = val
+            commons = [int(i.common) for i in idims]
         delivered, inner = [], []
         exc = None
         item = lambda c, r: {"c": [int(x) for x in c], "rows": [int(x) + 1 for x in np.asarray(r).tolist()]}   # noqa: E731
@@ -444,15 +486,21 @@ def gen_c14(env, tier):
                     cube.walk(lambda c2, r2: inner.append(item(c2, r2)))
                 else:
                     inner.extend(item(c2, r2) for c2, r2 in cube.interactions())
+        second = []
+        several = rnd.random() < 0.2          # walk() takes one callback or a list / tuple of them: each gets everything
         try:
-            if rnd.random() < 0.5 and not nest_at:
+            if rnd.random() < 0.5 and not nest_at and not several:
                 for c, r in cube.interactions():
                     delivered.append(item(c, r))
+            elif several:
+                cbs = [outer, lambda c2, r2: second.append(item(c2, r2))]
+                cube.walk(cbs if rnd.random() < 0.5 else tuple(cbs))
             else:
                 cube.walk(outer)
         except Exception as e:  # noqa
             exc = "%s: %s" % (type(e).__name__, e)
-        for what, lst in (("", delivered),) + ((("nested ", inner),) if nest_at and calls[0] >= nest_at else ()):
+        for what, lst in (("", delivered),) + ((("nested ", inner),) if nest_at and calls[0] >= nest_at else ()) \
+                + ((("second callback of the same ", second),) if several else ()):
             env.rec.tid += 1
             ev = {"tid": env.rec.tid, "prop": "C14", "kind": "walk", "n": n, "dims": [d.tolist() for d in dims],
                   "commons": [int(c) for c in commons], "delivered": lst, "exc": exc is not None}
@@ -474,8 +522,42 @@ def gen_residue(env, tier, prop):
         env.run_xcube(prop, case)
 
 
+def gen_reuse(env, tier, prop):
+    """aggregate-function objects built directly (not through cube.count / cube.sum ...) and handed to calculate() on a
+    first cube and then on a second cube with a different number of rows: what the second cube returns is a function of
+    the second cube"""
+    from ..drivers import pool as pl
+    from . import c16
+    rnd, gen = env.rnd, env.gen
+    env.srcdir = core.REPO / "src"
+    for q in range(60 if tier == "quick" else 1000):
+        kind = "ccube"          # (the array cube's count object is given its row count when it is built)
+        n1 = rnd.choice([2, 4, 7, 12])
+        n2 = rnd.choice([m for m in (1, 3, 5, 7, 9) if m != n1])
+        cases = []
+        ignore, fmt = rnd.random() < 0.5, rnd.choice([("nan",), ("tuple", 0)])       # properties of the function object
+        for n in (n1, n2):
+            nd = rnd.choice([1, 2])
+            extents = [rnd.choice([2, 3]) for _ in range(nd)]
+            c = cb.Case(gen.dims(nd, n, extents), tuple(extents), None, None, ignore, fmt, "count")
+            cases.append(c)
+        w = rnd.choice([None, None, {"kind": "scalar", "w": rnd.choice([Fraction(1, 2), 2, 3])}])
+        for c in cases:
+            c.weights = w
+        runs = [pl.PoolRun(env, kind, c, ["count"], core.SEED + q) for c in cases]
+        f = runs[0].funcs()[0]
+        for r in runs:
+            r.cube.parallel = False
+            try:
+                out = r.cube.calculate([f])
+            except Exception:  # noqa
+                continue
+            c16.record_outputs(env, prop, r, out)
+
+
 def gen_c03_all(env, tier):
     gen_c03(env, tier)
+    gen_reuse(env, tier, "C03")
     gen_twin_dims(env, tier, "C03")
     gen_residue(env, tier, "C03")
     gen_wide(env, tier, "C03")
@@ -589,9 +671,16 @@ def gen_c14_all(env, tier):
 def gen_c04_all(env, tier):
     gen_c04(env, tier)
     gen_wide(env, tier, "C04")
+    from . import c13
+    c13.pooled_blocks(env, tier, own="C04")          # the missing rule through the worker pool (scheduled threads)
 
 
-GENS = {"C02": gen_c02_all, "C03": gen_c03_all, "C04": gen_c04_all, "C05": gen_c05_all, "C13": gen_c13_all, "C14": gen_c14_all, "C18": gen_c18}
+def gen_c18_all(env, tier):
+    gen_c18(env, tier)
+    gen_c18_shared(env, tier)
+
+
+GENS = {"C02": gen_c02_all, "C03": gen_c03_all, "C04": gen_c04_all, "C05": gen_c05_all, "C13": gen_c13_all, "C14": gen_c14_all, "C18": gen_c18_all}
 
 
 def judge(chk, rec, own):
